@@ -133,5 +133,8 @@ Definition cQP := @FQuadPert Q.
 Definition cInfConv := @FInfConv Q.
 Definition cDefConj := @FDefConj Q.
 Definition cSep2 := @FSep2 Q.
+(* Functional.__mul__(0): ConstantFunctional(f(0)), evaluated eagerly at construction *)
+Definition cMul0 (w : list Q) (f : fx) : fx :=
+  match valueQ f w (map (fun _ => 0) w) with Ok (EFin v) => FConst v | _ => FConst 0 end.
 Definition cBreg (w : list Q) (f : fx) (p g : list Q) : fx :=
   match @bregman Q _ Qsqrt 0 f w p g with Ok e => e | Err _ => FConst 0 end.
